@@ -1,13 +1,678 @@
 package service
 
 import (
+	"fmt"
+	"sort"
+	"strings"
+
+	sdkmath "cosmossdk.io/math"
 	sdk "github.com/cosmos/cosmos-sdk/types"
+	gogotypes "github.com/cosmos/gogoproto/types"
+
+	"mods.irisnet.org/modules/service/types"
 
 	"verifharness/hx"
 )
 
-type GenState struct{}
+// GenState is generator-side memory of one history (never used by Exec).
+type GenState struct {
+	seenReq []string // request ids seen active at some point (for duplicate / late answers)
+	seenCtx []string
+	t0      int64
+}
 
-func (r *R) ResetLine(g *hx.Rng) string { return "" }
+var (
+	provPool  = []string{"A0", "A1", "A2"}
+	ownerPool = []string{"A3", "A4"}
+	consPool  = []string{"A5", "A6", "A7"}
+	svcPool   = []string{"s1", "s2"}
+	discounts = []string{"0.5", "0.9", "0.1", "0.25", "0.333333333333333333", "0.999999999999999999", "0.000000000000000001", "0.75"}
+	fractions = []string{"0", "0.05", "0.1", "0.5", "0.333333333333333333", "0.999999999999999999", "0.001", "0.01", "0.000000000000000001"}
+)
 
-func (r *R) Gen(ctx sdk.Context, g *hx.Rng) string { return "" }
+func pick(g *hx.Rng, xs []string) string { return xs[g.Intn(len(xs))] }
+
+func (r *R) ResetLine(g *hx.Rng) string {
+	r.nonce = 0
+	r.G = GenState{}
+	h := g.Range(5, 30)
+	t := g.Range(1000, 2000000000)
+	r.G.t0 = t
+	restricted := 0
+	if g.Chance(1, 6) {
+		restricted = 1
+	}
+	mindep := "-"
+	switch g.Pick(6, 1, 1, 1) {
+	case 0:
+		mindep = fmt.Sprintf("%d:stake", g.Range(1, 200))
+	case 1:
+		mindep = "-"
+	case 2:
+		mindep = fmt.Sprintf("%d:dbb,%d:stake", g.Range(1, 20), g.Range(1, 100))
+	default:
+		mindep = fmt.Sprintf("%d:dbb", g.Range(1, 20))
+	}
+	tax := pick(g, fractions)
+	if g.Chance(1, 4) {
+		tax = fmt.Sprintf("0.%018d", g.Range(0, 999999999999999999))
+	}
+	slash := pick(g, fractions)
+	if g.Chance(1, 5) {
+		slash = "1"
+	} else if g.Chance(1, 4) {
+		slash = fmt.Sprintf("0.%018d", g.Range(0, 999999999999999999))
+	}
+	var rates []string
+	if g.Chance(5, 6) {
+		rates = append(rates, "dbb:"+pick(g, []string{"2.0", "0.5", "1.5", "1", "0.000000000000000001", "3.333333333333333333", "1000000"}))
+	}
+	if g.Chance(1, 2) {
+		rates = append(rates, "dcc:"+pick(g, []string{"1.0", "0.25", "7", "0"}))
+	}
+	var fund []string
+	for _, o := range ownerPool {
+		fund = append(fund, fmt.Sprintf("%s/stake:%d", o, g.Range(0, 3)*g.Range(100, 100000)+g.Range(0, 5000)))
+	}
+	for _, c := range consPool {
+		switch g.Pick(3, 3, 1) {
+		case 0:
+			fund = append(fund, fmt.Sprintf("%s/stake:%d", c, g.Range(0, 200)))
+		case 1:
+			fund = append(fund, fmt.Sprintf("%s/stake:%d", c, g.Range(100, 100000)))
+		default:
+			fund = append(fund, fmt.Sprintf("%s/stake:%s", c, g.Amount(100)))
+		}
+		if g.Chance(3, 4) {
+			fund = append(fund, fmt.Sprintf("%s/dbb:%d", c, g.Range(0, 500)))
+		}
+		if g.Chance(1, 2) {
+			fund = append(fund, fmt.Sprintf("%s/dcc:%d", c, g.Range(0, 500)))
+		}
+	}
+	if g.Chance(1, 3) {
+		fund = append(fund, fmt.Sprintf("A8/stake:%d", g.Range(1, 5000)))
+	}
+	return "service reset " + hx.KV("h", h, "t", t, "base", "stake", "denoms", "stake,dbb,dcc", "restricted", restricted,
+		"maxto", g.Range(3, 30), "mdm", g.Range(1, 20), "mindep", mindep, "tax", tax, "slash", slash,
+		"cr", g.Range(1, 100), "atl", g.Range(1, 100), "rates", hx.Dash(strings.Join(rates, ",")), "fund", strings.Join(fund, ","))
+}
+
+type gBind struct {
+	svc, prov, owner string
+	avail            bool
+	dep              sdkmath.Int
+	pr               types.Pricing
+	dtime            int64
+}
+
+type gCtx struct {
+	id       string
+	c        types.RequestContext
+	consumer string
+}
+
+type gReq struct {
+	id, prov string
+	exp      int64
+}
+
+func (r *R) snapshot(ctx sdk.Context) (defs []string, binds []gBind, ctxs []gCtx, act []gReq, resps []string) {
+	cdc := r.env.App.AppCodec()
+	k := r.env.Service
+	r.iter(ctx, types.ServiceDefinitionKey, func(key, v []byte) {
+		var d types.ServiceDefinition
+		cdc.MustUnmarshal(v, &d)
+		defs = append(defs, d.Name)
+	})
+	r.iter(ctx, types.ServiceBindingKey, func(key, v []byte) {
+		var b types.ServiceBinding
+		cdc.MustUnmarshal(v, &b)
+		prov, _ := sdk.AccAddressFromBech32(b.Provider)
+		binds = append(binds, gBind{b.ServiceName, r.sym(b.Provider), r.sym(b.Owner), b.Available, b.Deposit.AmountOf(r.base),
+			k.GetPricing(ctx, b.ServiceName, prov), b.DisabledTime.Unix()})
+	})
+	r.iter(ctx, types.RequestContextKey, func(key, v []byte) {
+		var c types.RequestContext
+		cdc.MustUnmarshal(v, &c)
+		ctxs = append(ctxs, gCtx{hx.Hex(key), c, r.sym(c.Consumer)})
+	})
+	r.iter(ctx, types.ActiveRequestByIDKey, func(key, v []byte) {
+		q, ok := k.GetCompactRequest(ctx, key)
+		if ok {
+			act = append(act, gReq{hx.Hex(key), r.sym(q.Provider), q.ExpirationHeight})
+		}
+	})
+	r.iter(ctx, types.ResponseKey, func(key, v []byte) { resps = append(resps, hx.Hex(key)) })
+	_ = gogotypes.BytesValue{}
+	return
+}
+
+func (r *R) genPricing(g *hx.Rng, now int64) string {
+	denom := "stake"
+	switch g.Pick(12, 6, 2, 1) {
+	case 1:
+		denom = "dbb"
+	case 2:
+		denom = "dcc"
+	case 3:
+		denom = pick(g, []string{"dzz", "st", "1bad"})
+	}
+	var amt string
+	switch g.Pick(8, 1, 1) {
+	case 0:
+		amt = fmt.Sprint(g.Range(0, 60))
+	case 1:
+		amt = "0"
+	default:
+		amt = g.Amount(90).String()
+	}
+	pt, pv := "-", "-"
+	if g.Chance(1, 2) {
+		n := 1 + g.Intn(3)
+		if g.Chance(1, 100) {
+			n = 6
+		}
+		var items []string
+		cur := now - g.Range(0, 300)
+		for i := 0; i < n; i++ {
+			st := cur + g.Range(0, 60)
+			en := st + g.Range(1, 400)
+			if g.Chance(1, 120) {
+				en = st - g.Range(0, 2)
+			}
+			d := pick(g, discounts)
+			if g.Chance(1, 100) {
+				d = pick(g, []string{"1.0", "0.50", "0", "1", "0.0000000000000000001"})
+			}
+			items = append(items, fmt.Sprintf("%d~%d~%s", st, en, d))
+			cur = en
+			if g.Chance(1, 100) {
+				cur = st // overlapping next window
+			}
+		}
+		pt = strings.Join(items, ";")
+	}
+	if g.Chance(2, 5) {
+		n := 1 + g.Intn(3)
+		var items []string
+		v := g.Range(1, 3)
+		for i := 0; i < n; i++ {
+			d := pick(g, discounts)
+			items = append(items, fmt.Sprintf("%d~%s", v, d))
+			v += g.Range(0, 3)
+			if g.Chance(1, 100) {
+				v = 0
+			}
+		}
+		pv = strings.Join(items, ";")
+	}
+	pj := 1
+	if g.Chance(1, 100) {
+		pj = 0
+	}
+	return hx.KV("price", amt+":"+denom, "ptime", pt, "pvol", pv, "pjson", pj)
+}
+
+func (r *R) pricingOf(a string) (types.Pricing, bool) {
+	p, err := types.ParsePricing(pricingJSON(hx.Args(strings.Fields(a))))
+	return p, err == nil
+}
+
+// depositFor chooses a deposit around the minimum deposit of the pricing
+func (r *R) depositFor(ctx sdk.Context, g *hx.Rng, pricing string, already sdkmath.Int) string {
+	if g.Chance(1, 25) {
+		return pick(g, []string{"-", "5:dbb", "0:stake", "1:dbb,1:stake", "3:stake,2:dbb"})
+	}
+	min := sdkmath.NewInt(g.Range(1, 500))
+	if p, ok := r.pricingOf(pricing); ok && len(p.Price) > 0 {
+		func() {
+			defer func() { _ = recover() }()
+			if md, err := r.env.Service.GetMinDeposit(ctx, p); err == nil {
+				min = md.AmountOf(r.base)
+			}
+		}()
+	}
+	need := min.Sub(already)
+	if !need.IsPositive() {
+		need = sdkmath.NewInt(g.Range(1, 50))
+	}
+	switch g.Pick(5, 2, 2, 1) {
+	case 1:
+		need = need.AddRaw(g.Range(1, 300))
+	case 2:
+		if need.GT(sdkmath.OneInt()) {
+			need = need.SubRaw(1)
+		}
+	case 3:
+		need = need.MulRaw(g.Range(2, 10))
+	}
+	return need.String() + ":stake"
+}
+
+func (r *R) Gen(ctx sdk.Context, g *hx.Rng) string {
+	defs, binds, ctxs, act, resps := r.snapshot(ctx)
+	for _, a := range act {
+		if len(r.G.seenReq) < 200 {
+			found := false
+			for _, s := range r.G.seenReq {
+				if s == a.id {
+					found = true
+					break
+				}
+			}
+			if !found {
+				r.G.seenReq = append(r.G.seenReq, a.id)
+			}
+		}
+	}
+	now := ctx.BlockTime().Unix()
+	acc := func() string { return hx.AccName(g.Intn(NAcc)) }
+	svc := func() string {
+		if g.Chance(1, 25) {
+			return pick(g, []string{"s3", "1bad", "oracle-price"})
+		}
+		if len(defs) > 0 && g.Chance(19, 20) {
+			return defs[g.Intn(len(defs))]
+		}
+		return pick(g, svcPool)
+	}
+	pickBind := func() (gBind, bool) {
+		if len(binds) == 0 {
+			return gBind{svc: svc(), prov: pick(g, provPool), owner: pick(g, ownerPool), dep: sdkmath.ZeroInt()}, false
+		}
+		return binds[g.Intn(len(binds))], true
+	}
+	owner := func(b gBind) string {
+		if g.Chance(1, 8) {
+			return acc()
+		}
+		return b.owner
+	}
+	w := []int{1, 6, 3, 1, 2, 2, 2, 10, 4, 14, 5, 5, 2, 3, 1, 14, 5}
+	if len(defs) == 0 {
+		w[0] = 30
+	} else if len(defs) < 2 {
+		w[0] = 6
+	}
+	if len(binds) < 3 {
+		w[1] = 25
+	}
+	if len(act) == 0 {
+		w[9] = 2
+	}
+	if len(ctxs) == 0 {
+		w[11], w[12], w[13] = 1, 1, 1
+	}
+	kind := g.Pick(w...)
+	switch kind {
+	case 0:
+		name := pick(g, svcPool)
+		if g.Chance(1, 10) {
+			name = pick(g, []string{"1bad", "-", "s_3-x", "s3"})
+		}
+		sch := 1
+		if g.Chance(1, 15) {
+			sch = 0
+		}
+		return "service define " + hx.KV("sender", acc(), "name", name, "sch", sch)
+	case 1:
+		prov := pick(g, provPool)
+		if g.Chance(1, 12) {
+			prov = acc()
+		}
+		own := pick(g, ownerPool)
+		for _, b := range binds {
+			if b.prov == prov && g.Chance(9, 10) {
+				own = b.owner
+			}
+		}
+		sv := svc()
+		for i := 0; i < 6; i++ {
+			taken := false
+			for _, b := range binds {
+				if b.prov == prov && b.svc == sv {
+					taken = true
+				}
+			}
+			if !taken || g.Chance(1, 15) {
+				break
+			}
+			prov, sv = pick(g, provPool), svc()
+		}
+		for _, b := range binds {
+			if b.prov == prov && g.Chance(14, 15) {
+				own = b.owner
+			}
+		}
+		pr := r.genPricing(g, now)
+		maxto := r.env.Service.MaxRequestTimeout(ctx)
+		qos := g.Range(1, maxto)
+		if g.Chance(1, 2) {
+			qos = g.Range(1, 4)
+		}
+		if g.Chance(1, 25) {
+			qos = g.Range(0, 40)
+		}
+		opts := 1
+		if g.Chance(1, 30) {
+			opts = 0
+		}
+		return "service bind " + hx.KV("owner", own, "provider", prov, "svc", sv, "dep", r.depositFor(ctx, g, pr, sdkmath.ZeroInt()), "qos", qos) + " " + pr + " " + hx.KV("opts", opts)
+	case 2:
+		b, _ := pickBind()
+		pr := hx.KV("price", "-", "ptime", "-", "pvol", "-", "pjson", 1)
+		dep := "-"
+		if g.Chance(1, 2) {
+			pr = r.genPricing(g, now)
+			if g.Chance(2, 3) {
+				dep = r.depositFor(ctx, g, pr, b.dep)
+			}
+		} else if g.Chance(1, 2) {
+			dep = fmt.Sprintf("%d:stake", g.Range(1, 300))
+		}
+		qos := int64(0)
+		if g.Chance(1, 3) {
+			qos = g.Range(1, 35)
+		}
+		opts := "-"
+		if g.Chance(1, 5) {
+			opts = pick(g, []string{"1", "1", "0"})
+		}
+		return "service update_binding " + hx.KV("owner", owner(b), "provider", b.prov, "svc", b.svc, "dep", dep, "qos", qos) + " " + pr + " " + hx.KV("opts", opts)
+	case 3:
+		addr := pick(g, []string{"A8", "A9", "A3", "A4", "A0"})
+		if g.Chance(1, 8) {
+			addr = pick(g, []string{"Mblk", "xx"})
+		}
+		return "service set_withdraw " + hx.KV("owner", pick(g, ownerPool), "addr", addr)
+	case 4:
+		b, ok := pickBind()
+		for i := 0; i < 4 && ok && b.avail; i++ {
+			b, _ = pickBind()
+		}
+		dep := "-"
+		if g.Chance(2, 3) {
+			dep = r.depositFor(ctx, g, "", b.dep)
+			if ok && len(b.pr.Price) > 0 {
+				func() {
+					defer func() { _ = recover() }()
+					if md, err := r.env.Service.GetMinDeposit(ctx, b.pr); err == nil {
+						need := md.AmountOf(r.base).Sub(b.dep)
+						if need.IsPositive() {
+							if g.Chance(1, 4) && need.GT(sdkmath.OneInt()) {
+								need = need.SubRaw(1)
+							}
+							dep = need.String() + ":stake"
+						}
+					}
+				}()
+			}
+		}
+		return "service enable " + hx.KV("owner", owner(b), "provider", b.prov, "svc", b.svc, "dep", dep)
+	case 5:
+		b, _ := pickBind()
+		return "service disable " + hx.KV("owner", owner(b), "provider", b.prov, "svc", b.svc)
+	case 6:
+		b, ok := pickBind()
+		for i := 0; i < 4 && ok && b.avail; i++ {
+			b, _ = pickBind()
+		}
+		return "service refund_deposit " + hx.KV("owner", owner(b), "provider", b.prov, "svc", b.svc)
+	case 7, 8:
+		isMod := false
+		if kind == 8 || g.Chance(1, 6) {
+			isMod = true
+		}
+		s := svc()
+		var ps []string
+		for _, b := range binds {
+			if b.svc == s && g.Chance(3, 4) {
+				ps = append(ps, b.prov)
+			}
+		}
+		if len(ps) == 0 || g.Chance(1, 10) {
+			ps = append(ps, pick(g, provPool))
+		}
+		if g.Chance(1, 30) {
+			ps = append(ps, ps[0])
+		}
+		if g.Chance(1, 40) {
+			ps = nil
+		}
+		if g.Chance(1, 3) { // listed order matters for request indices
+			sort.Sort(sort.Reverse(sort.StringSlice(ps)))
+		}
+		cap := fmt.Sprintf("%d:stake", g.Range(1, 120))
+		switch g.Pick(12, 2, 1, 1) {
+		case 1:
+			cap = g.Amount(95).String() + ":stake"
+		case 2:
+			cap = pick(g, []string{"-", "5:dbb", "0:stake", "1:dbb,1:stake"})
+		case 3:
+			for _, b := range binds {
+				if b.svc == s && len(b.pr.Price) > 0 && b.pr.Price[0].Amount.IsPositive() && b.pr.Price[0].Amount.BigInt().BitLen() < 60 {
+					cap = fmt.Sprintf("%d:stake", b.pr.Price[0].Amount.Int64()+g.Range(-1, 1))
+					if strings.HasPrefix(cap, "0:") || strings.HasPrefix(cap, "-") {
+						cap = "1:stake"
+					}
+				}
+			}
+		}
+		timeout := g.Range(1, 6)
+		if g.Chance(1, 15) {
+			timeout = g.Range(-1, 35)
+		}
+		rep, freq, total := 0, int64(0), int64(0)
+		if g.Chance(1, 2) {
+			rep = 1
+			freq = 0
+			if g.Chance(2, 3) {
+				freq = timeout + g.Range(0, 4)
+			}
+			if g.Chance(1, 20) && timeout > 1 {
+				freq = timeout - 1
+			}
+			total = g.Range(1, 4)
+			switch g.Pick(8, 2, 1) {
+			case 1:
+				total = -1
+			case 2:
+				total = g.Range(-2, 0)
+			}
+			if freq < 0 {
+				freq = 0
+			}
+		} else if g.Chance(1, 10) {
+			freq, total = g.Range(0, 5), g.Range(0, 3)
+		}
+		in := 1
+		if g.Chance(1, 30) {
+			in = 0
+		}
+		r.nonce++
+		cons := pick(g, consPool)
+		if g.Chance(1, 15) {
+			cons = acc()
+		}
+		if !isMod {
+			return "service call " + hx.KV("consumer", cons, "svc", s, "providers", hx.Dash(strings.Join(ps, ",")), "cap", cap,
+				"timeout", timeout, "repeated", rep, "freq", freq, "total", total, "input", in, "tx", fmt.Sprintf("n%d", r.nonce))
+		}
+		thr := g.Range(1, int64(len(ps)))
+		if g.Chance(1, 12) {
+			thr = g.Range(0, int64(len(ps))+1)
+		}
+		st := "running"
+		if g.Chance(1, 4) {
+			st = "paused"
+		}
+		mod := CbMod
+		if g.Chance(1, 25) {
+			mod = "ghost"
+		}
+		if ps == nil {
+			ps = []string{}
+		}
+		return "service mcall " + hx.KV("consumer", cons, "svc", s, "providers", hx.Dash(strings.Join(ps, ",")), "cap", cap,
+			"timeout", timeout, "repeated", rep, "freq", freq, "total", total, "input", in, "tx", fmt.Sprintf("n%d", r.nonce),
+			"state", st, "thr", thr, "mod", mod)
+	case 9:
+		var q gReq
+		switch {
+		case len(act) > 0 && g.Chance(9, 10):
+			q = act[g.Intn(len(act))]
+		case len(resps) > 0 && g.Chance(1, 2):
+			q = gReq{id: resps[g.Intn(len(resps))], prov: pick(g, provPool)}
+			if rq, ok := r.env.Service.GetCompactRequest(ctx, unhex(q.id)); ok {
+				q.prov = r.sym(rq.Provider)
+			}
+		case len(r.G.seenReq) > 0:
+			q = gReq{id: r.G.seenReq[g.Intn(len(r.G.seenReq))], prov: pick(g, provPool)}
+		default:
+			q = gReq{id: strings.Repeat("ab", 58), prov: pick(g, provPool)}
+		}
+		prov := q.prov
+		if g.Chance(1, 8) {
+			prov = acc()
+		}
+		code, out, res := 200, "good", 1
+		switch g.Pick(10, 3, 1, 1, 1, 1) {
+		case 1:
+			code, out = pick2(g, 400, 500), "none"
+		case 2:
+			code, out = 200, "none"
+		case 3:
+			code, out = 400, "good"
+		case 4:
+			out = "bad"
+		case 5:
+			res = 0
+		}
+		id := q.id
+		if g.Chance(1, 40) {
+			id = id[:len(id)-2]
+		}
+		return "service respond " + hx.KV("provider", prov, "req", id, "code", code, "out", out, "res", res)
+	case 10:
+		own := pick(g, ownerPool)
+		if g.Chance(1, 10) {
+			own = acc()
+		}
+		prov := pick(g, provPool)
+		for _, b := range binds {
+			if b.owner == own && g.Chance(1, 2) {
+				prov = b.prov
+			}
+		}
+		if g.Chance(1, 6) {
+			// keeper-level withdrawal of everything the owner earned: only when the owner-side tally is intact
+			if r.talliesAgree(ctx, own) {
+				return "service withdraw_k " + hx.KV("owner", own, "provider", "-")
+			}
+			return "service withdraw " + hx.KV("owner", own, "provider", "-")
+		}
+		return "service withdraw " + hx.KV("owner", own, "provider", prov)
+	case 11:
+		c, consumer := r.pickCtx(g, ctxs)
+		if g.Chance(1, 6) {
+			consumer = acc()
+		}
+		return "service " + pick(g, []string{"pause", "pause", "start", "start", "kill"}) + " " + hx.KV("consumer", consumer, "ctx", c)
+	case 12:
+		c, consumer := r.pickCtx(g, ctxs)
+		if g.Chance(1, 6) {
+			consumer = acc()
+		}
+		ps := "-"
+		if g.Chance(1, 3) {
+			ps = strings.Join(provPool[:1+g.Intn(3)], ",")
+		}
+		cap := "-"
+		if g.Chance(1, 3) {
+			cap = fmt.Sprintf("%d:stake", g.Range(1, 100))
+		}
+		timeout, freq, total := int64(0), int64(0), int64(0)
+		if g.Chance(1, 3) {
+			timeout = g.Range(0, 8)
+		}
+		if g.Chance(1, 3) {
+			freq = g.Range(0, 12)
+		}
+		if g.Chance(1, 3) {
+			total = g.Range(-1, 6)
+		}
+		return "service update_ctx " + hx.KV("consumer", consumer, "ctx", c, "providers", ps, "cap", cap, "timeout", timeout, "freq", freq, "total", total)
+	case 13:
+		c, consumer := r.pickCtx(g, ctxs)
+		if len(c) != 80 {
+			c = strings.Repeat("0", 80)
+		}
+		if g.Chance(1, 6) {
+			consumer = acc()
+		}
+		if g.Chance(1, 4) {
+			return "service mupdate " + hx.KV("consumer", consumer, "ctx", c, "providers", "-", "thr", g.Range(0, 3), "cap", "-", "timeout", g.Range(0, 5), "freq", g.Range(0, 9), "total", g.Range(-1, 5))
+		}
+		return "service " + pick(g, []string{"mpause", "mstart", "mstart", "mkill"}) + " " + hx.KV("consumer", consumer, "ctx", c)
+	case 14:
+		d := pick(g, []string{"dbb", "dcc"})
+		rate := pick(g, []string{"-", "2.0", "0.5", "1", "0", "4.25"})
+		return "service set_rate " + hx.KV("denom", d, "rate", rate)
+	case 15:
+		return "service next " + hx.KV("dt", g.Range(1, 120))
+	default:
+		return "service skip " + hx.KV("n", g.Range(2, 9), "dt", g.Range(1, 60))
+	}
+}
+
+func pick2(g *hx.Rng, a, b int) int {
+	if g.Chance(1, 2) {
+		return a
+	}
+	return b
+}
+
+func (r *R) pickCtx(g *hx.Rng, ctxs []gCtx) (string, string) {
+	for _, c := range ctxs {
+		known := false
+		for _, s := range r.G.seenCtx {
+			if s == c.id {
+				known = true
+			}
+		}
+		if !known && len(r.G.seenCtx) < 100 {
+			r.G.seenCtx = append(r.G.seenCtx, c.id)
+		}
+	}
+	if len(ctxs) > 0 && g.Chance(9, 10) {
+		c := ctxs[g.Intn(len(ctxs))]
+		return c.id, c.consumer
+	}
+	if len(r.G.seenCtx) > 0 && g.Chance(2, 3) {
+		return r.G.seenCtx[g.Intn(len(r.G.seenCtx))], pick(g, consPool)
+	}
+	if g.Chance(1, 3) {
+		return "abc", pick(g, consPool)
+	}
+	return strings.Repeat("cd", 40), pick(g, consPool)
+}
+
+// talliesAgree: the owner's earned-fee entries equal the sum of its providers' entries
+func (r *R) talliesAgree(ctx sdk.Context, owner string) bool {
+	k := r.env.Service
+	oa, ok := r.addrs[owner]
+	if !ok {
+		return false
+	}
+	oe, _ := k.GetOwnerEarnedFees(ctx, oa)
+	sum := sdk.NewCoins()
+	it := k.OwnerProvidersIterator(ctx, oa)
+	defer it.Close()
+	for ; it.Valid(); it.Next() {
+		p := sdk.AccAddress(it.Key()[21:])
+		e, _ := k.GetEarnedFees(ctx, p)
+		sum = sum.Add(e...)
+	}
+	return sum.Equal(oe)
+}
